@@ -18,8 +18,13 @@ pub fn check(p: &Pos, rep: &mut Report, rng: &mut StdRng) {
         let before = snap(&bb);
         let before_fen = fen_of(&bb)?;
         let mut out = Vec::new();
-        for m in bb.generate_pseudo_legal_moves() {
-            let u = m.to_uci_string();
+        // both generators: the full one and the capture/promotion-only one (whose moves the
+        // quiescence search makes and unmakes)
+        let mut all = bb.generate_pseudo_legal_moves();
+        let n_full = all.len();
+        all.extend(bb.generate_pseudo_legal_non_quiescent_moves());
+        for (mi, m) in all.into_iter().enumerate() {
+            let u = if mi < n_full { m.to_uci_string() } else { format!("{}~", m.to_uci_string()) };
             bb.make(m);
             let mid = snap(&bb);
             bb.unmake(m);
@@ -39,6 +44,9 @@ pub fn check(p: &Pos, rep: &mut Report, rng: &mut StdRng) {
         Ok(Ok(v)) => {
             for (u, changed, d, fen_changed) in v {
                 rep.eval();
+                let from_noisy_generator = u.ends_with('~');
+                let u = u.trim_end_matches('~').to_string();
+                if from_noisy_generator { rep.count("moves_of_the_capture_promotion_generator"); }
                 let kind = move_kind(p, &u);
                 let is_legal = legal.contains(&u);
                 if !is_legal { rep.count("illegal_pseudo_legal_moves"); }
@@ -47,7 +55,7 @@ pub fn check(p: &Pos, rep: &mut Report, rng: &mut StdRng) {
                 }
                 if !d.is_empty() || fen_changed {
                     let bucket = if p.half >= 128 { "half>=128" } else { "half<128" };
-                    rep.violation(&format!("not-restored:{}:{}", if d.is_empty() { "fen" } else { &d }, bucket), format!("make+unmake of {} ({}) in {} changed {}", u, kind, fen, d), json!({"kind":"c03","fen":fen,"move":u}));
+                    rep.violation(&format!("not-restored:{}:{}{}", if d.is_empty() { "fen" } else { &d }, bucket, if from_noisy_generator { ":capture-generator" } else { "" }), format!("make+unmake of {} ({}) in {} changed {}", u, kind, fen, d), json!({"kind":"c03","fen":fen,"move":u}));
                 }
                 rep.count(&format!("kind_{}", kind));
                 if p.half >= 128 { rep.count("halfmove_ge_128"); }
